@@ -158,6 +158,55 @@ pub fn run_cli_os(args: &[std::ffi::OsString]) -> CmdResult {
     CmdResult { outcome, stdout, log: take_log(), inner_panic }
 }
 
+/// Two `bita` commands as two simulated processes that run at the same time (one executor, the
+/// second starts after `delay` scheduling steps). For commands that do not read stdin.
+pub fn run_cli_pair(a: &[String], b: &[String], delay: u32) -> Option<(Outcome, Outcome)> {
+    simkit::with(|s| s.event_s("cli-pair", &format!("{} || {} (+{})", a.join(" "), b.join(" "), delay)));
+    let _ = take_log();
+    let _ = take_panic();
+    let pa = bita::cli::parse_opts(a.iter().map(std::ffi::OsString::from)).ok()?;
+    let pb = bita::cli::parse_opts(b.iter().map(std::ffi::OsString::from)).ok()?;
+    log::set_max_level(pa.1.filter);
+    async fn dispatch(cmd: bita::cli::CommandOpts) -> anyhow::Result<()> {
+        use bita::cli::CommandOpts;
+        match cmd {
+            CommandOpts::Compress(opts) => bita::compress_cmd::compress_cmd(opts).await,
+            CommandOpts::Clone(opts) => bita::clone_cmd::clone_cmd(opts).await,
+            CommandOpts::Info(opts) => bita::info_cmd::info_cmd(opts).await,
+            CommandOpts::Diff(opts) => bita::diff_cmd::diff_cmd(opts).await,
+        }
+    }
+    let (ca, cb) = (pa.0, pb.0);
+    let r = run_async(async move {
+        let fa = dispatch(ca);
+        let fb = async move {
+            for _ in 0..delay {
+                tokio::task::yield_now().await;
+            }
+            dispatch(cb).await
+        };
+        futures_util::future::join(fa, fb).await
+    });
+    let _ = std::io::stdout().flush();
+    let _ = sys::with(|s| std::mem::take(&mut s.stdout));
+    let _ = take_log();
+    let both = match r {
+        Ok(End::Done((ra, rb))) => {
+            let o = |r: anyhow::Result<()>| match r {
+                Ok(()) => Outcome::Success,
+                Err(e) => Outcome::Error(format!("{:#}", e)),
+            };
+            (o(ra), o(rb))
+        }
+        Ok(End::StepBudget) => (Outcome::StepBudget, Outcome::StepBudget),
+        Ok(End::Deadlock) => (Outcome::Deadlock, Outcome::Deadlock),
+        Ok(End::Crashed) => (Outcome::Crashed, Outcome::Crashed),
+        Err(p) => (Outcome::Panic(p.clone()), Outcome::Panic(p)),
+    };
+    simkit::with(|s| s.event_s("cli-pair-outcome", &format!("{} / {}", both.0.class(), both.1.class())));
+    Some(both)
+}
+
 pub fn args(list: &[&str]) -> Vec<String> {
     list.iter().map(|s| s.to_string()).collect()
 }
